@@ -847,9 +847,9 @@ func c10Check(ctx *core.Ctx, cs *c10Case, schema *parquet.Schema, res c10Result,
 				if cols := c10ColumnsOutOfStep(in, out, len(schema.Columns())); cols != nil {
 					key := attributed("rows-not-intact")
 					what := fmt.Sprintf("%s: every column holds the values written, but the rows are not intact: column(s) %v moved out of step with the other columns", phase, cols)
-					if ph.rowIndex == "" && c10AllEmptyByteArrayColumns(in, cols) {
+					if ph.rowIndex == "" && pi == 0 && c10AllEmptyByteArrayColumns(in, cols) && c10ColumnsKeepWrittenOrder(in, out, cols) {
 						key = "rows-not-intact-byte-array-column-with-empty-value"
-						what += " (BYTE_ARRAY column(s) holding an empty non-null value)"
+						what += " (BYTE_ARRAY column(s) holding an empty non-null value, whose values are still in the order they were written: the column did not follow the swaps)"
 					}
 					ctx.Fail("L1", key, what, detail(map[string]any{"out": oc, "columns_out_of_step": cols, "row_index": ph.rowIndex}))
 					return
@@ -1041,6 +1041,27 @@ func c10AllEmptyByteArrayColumns(in []parquet.Row, cols []int) bool {
 		}
 	}
 	return len(cols) > 0
+}
+
+// the non-null values of each of these columns come out in exactly the order they were written
+func c10ColumnsKeepWrittenOrder(in, out []parquet.Row, cols []int) bool {
+	seq := func(rows []parquet.Row, c int) string {
+		var sb strings.Builder
+		for _, r := range rows {
+			for _, v := range r {
+				if v.Column() == c && !v.IsNull() {
+					sb.WriteString(gen.ValueKey(v) + ",")
+				}
+			}
+		}
+		return sb.String()
+	}
+	for _, c := range cols {
+		if seq(in, c) != seq(out, c) {
+			return false
+		}
+	}
+	return true
 }
 
 func c10KeyKinds(keys []c10Key) string {
